@@ -77,8 +77,8 @@ def run(tier):
         progs.append(p)
     ok, failed = en.build_all(progs)
     args = ["--prop", "C01,C03", "--tier", tier, "--common", "1", "--dev", "1", "--batch", "2", "--classes", str(en.cls("REQ", "GUARD", "CONSUME", "SELECT")),
-            "--dev-immediate", "1", "--imm-reduced", "1", "--deadline", str(1200 if thorough else 140)]
-    results = vtlib.run_many([[p.exe] + args + p.extra for p in ok], timeout=(2000 if thorough else 400))
+            "--dev-immediate", "1", "--imm-reduced", "1", "--deadline", str(en.TD if thorough else 140)]
+    results = vtlib.run_many([[p.exe] + args + p.extra for p in ok], timeout=(en.TD + 900 if thorough else 400))
     groups = {}
     evaluations = 0
     samples = []
